@@ -68,11 +68,13 @@ class CallMixin:
                             return VFunc("module", m2 + "." + n2)
                         except FileNotFoundError:
                             pass
-                if n2 in BUILTIN_NAMES or (m2, n2) in (("math", "ceil"), ("math", "sqrt"), ("math", "floor"), ("typing", "cast"), ("time", "time"), ("random", "randint"), ("operator", "itemgetter"), ("colorsys", "rgb_to_hls"), ("functools", "lru_cache")):
+                if n2 in BUILTIN_NAMES or (m2, n2) in (("math", "ceil"), ("math", "sqrt"), ("math", "floor"), ("typing", "cast"), ("time", "time"), ("random", "randint"), ("operator", "itemgetter"), ("functools", "lru_cache")):
                     return VFunc("builtin", n2)
                 return VFunc("external", f"{m2}.{n2}")
         if name in BUILTIN_NAMES:
             return VFunc("builtin", name)
+        if name == "NotImplemented":
+            return VFunc("notimplemented", name)
         if name in EXC_PARENTS:
             return VFunc("excclass", name)
         if name in self.reg.specfns:
@@ -92,7 +94,7 @@ class CallMixin:
             # simple constant expressions (e.g. 1024 * 4) and aliases
             if isinstance(node, ast.Name):
                 return self.lookup_module(mod, node.id)
-            if isinstance(node, ast.Call) and isinstance(node.func, ast.Name) and node.func.id in mod.classes | mod.imports.keys():
+            if isinstance(node, ast.Call) and isinstance(node.func, ast.Name) and node.func.id in set(mod.classes) | set(mod.imports):
                 return VFunc("constobj", name, data=(mod.name, node))
             raise Unsupported(f"module constant {mod.name}.{name} is not a literal")
         return self.py_to_val(v)
@@ -133,6 +135,9 @@ class CallMixin:
         b = self.deref(base, st)
         if isinstance(b, V) and b.sort.kind == "opt":
             b = self.deref(self.unwrap_opt(b, st, f".{attr}"), st)
+        if attr == "__new__" and (isinstance(b, ObjState) or (isinstance(b, V) and b.sort.kind == "rec") or (isinstance(b, VFunc) and b.kind == "class")):
+            yield VFunc("builtin", "__new__"), st
+            return
         if isinstance(b, ObjState):
             if attr in b.fields:
                 yield b.fields[attr], st
@@ -522,6 +527,13 @@ class CallMixin:
             return V(REAL, self.real_of(v0))
         if so.kind == "rec" and isinstance(v0, ObjState) and not self.U.records[so.name].mutable:
             return V(so, self.to_term(v0, so, st))
+        if so.kind == "tuple":
+            if isinstance(v0, V) and v0.sort.kind == "opt":
+                v0 = self.deref(self.unwrap_opt(v0, st, "tuple argument"), st)
+            if isinstance(v0, V) and v0.sort.kind == "rec":
+                decl = self.U.records[v0.sort.name]
+                return VTuple([self.rec_field(v0, f, st) for f in decl.positional])
+            return v0
         if so.kind == "list" and isinstance(v0, VTuple):
             return self.box_list(self.tuple_to_seq(v0, so.args[0], st), st)
         return v
